@@ -74,6 +74,7 @@ REQUIRED = [
     'neigh_SILENT_TIME', 'neigh_ENTRY_LIFETIME', 'meta_DISCOVERY_SILENT_TIME',
     'cfg_IFACE_NEIGHBOR_CACHE_COUNT', 'cfg_IFACE_MAX_ROUTE_COUNT',
     'dns_RETRANSMIT_DELAY', 'dns_MAX_RETRANSMIT_DELAY', 'dns_RETRANSMIT_TIMEOUT', 'dns_DNS_PORT',
+    'dns_MDNS_DNS_PORT', 'wdns_CLASS_IN', 'cfg_DNS_MAX_NAME_SIZE', 'cfg_DNS_MAX_RESULT_COUNT', 'cfg_DNS_MAX_SERVER_COUNT',
     'dhcp_DEFAULT_LEASE_DURATION', 'dhcp_MAX_IPV4_HEADER_LEN', 'wudp_HEADER_LEN', 'wdhcp_SERVER_PORT', 'wdhcp_CLIENT_PORT',
     'wdhcp_MAX_DNS_SERVER_COUNT',
     'slaac_MAX_RTR_SOLICITATIONS', 'slaac_RTR_SOLICITATION_INTERVAL',
